@@ -984,7 +984,18 @@ def replay_c18(d, case):
         if 'every' in tool:
             kw['every'] = True
         with contextlib.redirect_stdout(buf), contextlib.redirect_stderr(io.StringIO()):
-            Menu('plt', min_max=min_max, finest_lv=finest, **kw)
+            if tool.endswith('/cli'):
+                from amr_kitchen.menu import cli as menu_cli
+                sys.argv = ['menu', 'plt'] + (['--min_max'] if min_max else []) + (['--finest_lv'] if finest else [])
+                if kw.get('has_var'):
+                    sys.argv += ['--has_var', ', '.join(kw['has_var'])]
+                sys.argv += (['-d'] if kw.get('description') else []) + (['-e'] if kw.get('every') else [])
+                try:
+                    menu_cli.main()
+                except SystemExit as e:
+                    return True, '`%s` exited with %r' % (' '.join(sys.argv), e.code)
+            else:
+                Menu('plt', min_max=min_max, finest_lv=finest, **kw)
         out = buf.getvalue()
         if min_max or finest:
             cells = {}
